@@ -31,6 +31,30 @@ pub fn with_seed<T: Send + 'static>(k: u64, f: impl FnOnce() -> T + Send + 'stat
     h.join().map_err(|e| crate::subject::payload_str(e.as_ref()))
 }
 
+/// Own the host's random source. The repository's `random_int` draws from `rand`'s thread-local
+/// generator, which seeds itself through the libc `getrandom` symbol (getrandom's Linux backend
+/// looks it up with dlsym, so it resolves to the interposer). Resetting the interposer's stream to
+/// `k` and reseeding the calling thread's generator makes the sequence of numbers the program
+/// draws on this thread a function of `k`: two executions that are each preceded by
+/// `own_thread_rng(k)` receive the same answers from the environment. Returns false when the
+/// interposer is not loaded (the generator then reseeds from the kernel and nothing is owned).
+pub fn own_thread_rng(k: u64) -> bool {
+    let Some(set) = setter() else { return false };
+    unsafe { set(k) };
+    rand::rng().reseed().is_ok()
+}
+
+/// True when something on the calling thread has drawn from the generator since
+/// `own_thread_rng(k)`: the next number differs from the first number of the stream that `k`
+/// determines. (Leaves the generator used; callers reset it before the next execution.)
+pub fn thread_rng_used(k: u64) -> bool {
+    use rand::RngExt;
+    let next: u64 = rand::rng().random();
+    own_thread_rng(k);
+    let first: u64 = rand::rng().random();
+    next != first
+}
+
 /// Iteration order of a small probe set under the current thread's keys (to count distinct orders).
 pub fn probe_order() -> u64 {
     let s: std::collections::HashSet<u32> = (0..6).collect();
